@@ -3,10 +3,12 @@ void engineCache(const std::vector<std::string> &, const std::vector<std::string
 void engineCodec(const std::vector<std::string> &, const std::vector<std::string> &);
 void engineActor(const std::vector<std::string> &, const std::vector<std::string> &);
 void engineValues(const std::vector<std::string> &, const std::vector<std::string> &);
+void engineNet(const std::vector<std::string> &, const std::vector<std::string> &);
 void registerAllEngines()
 {
     registerEngine("cache", engineCache);
     registerEngine("codec", engineCodec);
     registerEngine("values", engineValues);
+    registerEngine("net", engineNet);
     for (const char *n : {"actor", "prober", "hostname", "provider", "browser", "resolver"}) registerEngine(n, engineActor);
 }
